@@ -29,10 +29,23 @@ def run(tier, seed):
     from . import c07_cycles
 
     c07_cycles.run(res, tier, seed)
+    # threads of progress observers are threads run created too: a composite whose later member cannot be entered
+    from . import c15
+
+    c15.run_partial(res, PROP)
     return res
 
 
 def replay(w):
+    if w.get("witness", {}).get("partial"):
+        from . import c15
+
+        r = c15.composite_partial_enter((tuple(w["witness"]["order"]), None))
+        print(r)
+        bad = any(f["what"] == "observer_thread_left_running" for f in r["fails"])
+        if bad:
+            print("VIOLATION property=C07 replay=(reproduced)")
+        return 1 if bad else 0
     if w.get("witness", {}).get("kind") == "cycle":
         from . import c07_cycles
 
